@@ -101,8 +101,14 @@ def fibre_km(m, sites):
     return tot
 
 
-def request(rid, src, dst, nodes=(), loose=(), bidir=False):
+def request(rid, src, dst, nodes=(), loose=(), bidir=False, omit_lists=False):
     from gnpy.topology.request import PathRequest
+    if omit_lists:
+        # built through the API without any include list: the constructor's own defaults are used
+        return PathRequest(request_id=rid, source=f'trx {src}', destination=f'trx {dst}', bidir=bidir, trx_type='Voyager',
+                           trx_mode='mode 1', baud_rate=32e9, format='mode 1', bit_rate=100e9, roll_off=0.15, OSNR=11, penalties={},
+                           path_bandwidth=100e9, f_min=191.3e12, f_max=196.1e12, spacing=50e9, min_spacing=37.5e9, cost=1, nb_channel=10,
+                           power=1e-3, equalization_offset_db=0, tx_power=1e-3, tx_osnr=40)
     return PathRequest(request_id=rid, source=f'trx {src}', destination=f'trx {dst}', bidir=bidir, trx_type='Voyager',
                        trx_mode='mode 1', baud_rate=32e9, nodes_list=list(nodes), loose_list=list(loose), format='mode 1',
                        bit_rate=100e9, roll_off=0.15, OSNR=11, penalties={}, path_bandwidth=100e9, f_min=191.3e12, f_max=196.1e12,
